@@ -1,4 +1,5 @@
 import J5V.Conc.Cache
+import J5V.Conc.Clash
 /-! Line-protocol driver for the conc cluster (core only): stream `conc.seq`.
 See /verif/harness/PROTOCOL-conc.md.
 
@@ -18,8 +19,11 @@ def parseField (s : String) : Option Field :=
     match num.toNat? with
     | none => none
     | some n =>
-      let w := if wrap == "-" then "" else wrap
-      if !(w.toList.all (fun c => c == 'a' || c == 'm')) then none
+      -- 'f' (flattened message field) is not part of the schema the cache builds: it only changes
+      -- the client property list, which the harness compares with a fresh cache
+      let w0 := if wrap == "-" then "" else wrap
+      let w := String.ofList (w0.toList.filter (· != 'f'))
+      if !(w0.toList.all (fun c => c == 'a' || c == 'm' || c == 'f')) then none
       else if base == "s" then some ⟨n, w, .scalar⟩
       else if base == "x" then some ⟨n, w, .bad⟩
       else if base.startsWith "r" then (base.drop 1).toString.toNat?.map (fun r => ⟨n, w, .ref r⟩)
@@ -56,6 +60,12 @@ def step (line : String) : String :=
   match (line.trimAscii.toString.splitOn " ") with
   | ["seq", g, reqs] => runLine g reqs
   | ["real", _, g, reqs] => runLine g reqs
+  | ["clash", v, reqs] =>
+    match parseReqs reqs with
+    | some rs =>
+      if (v == "m" || v == "e") && rs.all (fun r => r < 6 && !(v == "e" && r == 1)) then J5V.Conc.Clash.runOp rs
+      else "bad-op"
+    | none => "bad-op"
   | _ => "bad-op"
 
 partial def loop (h : IO.FS.Stream) (out : IO.FS.Stream) : IO Unit := do
